@@ -148,7 +148,7 @@ func xdevBase() string {
 	if fi, err := os.Stat("/dev/shm"); err != nil || !fi.IsDir() {
 		return ""
 	}
-	d, err := os.MkdirTemp("/dev/shm", "stagex-final")
+	d, err := os.MkdirTemp("/dev/shm", "stagex-final-"+os.Getenv("VT_RUN")+"-")
 	if err != nil {
 		return ""
 	}
